@@ -46,145 +46,181 @@ type vrdIntent struct {
 }
 
 func vrdBytes(v string) []byte {
-	b, _ := proto.Marshal(&sdcpb.TypedValue{Value: &sdcpb.TypedValue_StringVal{StringVal: v}})
+	tv := &sdcpb.TypedValue{Value: &sdcpb.TypedValue_StringVal{StringVal: strings.TrimPrefix(v, "s:")}}
+	if strings.HasPrefix(v, "u:") {
+		var n uint64
+		fmt.Sscanf(v[2:], "%d", &n)
+		tv = &sdcpb.TypedValue{Value: &sdcpb.TypedValue_UintVal{UintVal: n}}
+	}
+	b, _ := proto.Marshal(tv)
 	return b
+}
+
+// the datum a stored value denotes (a uint leaf may be stored as a string by older writers)
+func vrdDatum(v string) string {
+	return strings.TrimPrefix(strings.TrimPrefix(v, "s:"), "u:")
+}
+
+func vrdTvString(tv *sdcpb.TypedValue) string {
+	if tv == nil {
+		return ""
+	}
+	return utils.TypedValueToString(tv)
 }
 
 func TestVerifReplayDeviations(t *testing.T) {
 	fn := "(*datastore.Datastore).runDeviationUpdate"
-	path := []string{"interface", "ethernet-1/1", "description"}
-	xpath := "interface[name=ethernet-1/1]/description"
 	n := 0
+	type vrdLeaf struct {
+		path     []string
+		xpath    string
+		runnings []string
+		sets     [][]vrdIntent
+	}
+	leaves := []vrdLeaf{
+		{[]string{"interface", "ethernet-1/1", "description"}, "interface[name=ethernet-1/1]/description", []string{"", "a", "b"}, [][]vrdIntent{
+			nil,
+			{{"i1", 10, "a"}},
+			{{"i1", 10, "b"}},
+			{{"i1", 10, "a"}, {"i2", 20, "a"}},
+			{{"i1", 10, "a"}, {"i2", 20, "b"}},
+			{{"i2", 20, "b"}, {"i1", 10, "a"}},
+			{{"i1", 10, "a"}, {"i2", 20, "b"}, {"i3", 30, "a"}},
+			{{"i1", 10, "b"}, {"i2", 20, "a"}, {"i3", 30, "c"}},
+		}},
+		// a uint32 leaf whose intents are stored partly as strings: values are compared after normalisation
+		{[]string{"rangetestunsigned"}, "rangetestunsigned", []string{"u:20"}, [][]vrdIntent{
+			{{"i1", 5, "u:20"}, {"i2", 10, "s:20"}},
+			{{"i1", 5, "u:20"}, {"i2", 10, "s:30"}},
+			{{"i1", 5, "s:20"}},
+			{{"i1", 5, "s:30"}, {"i2", 10, "u:30"}},
+		}},
+	}
 	for _, keysFail := range []bool{false, true} {
-		for _, running := range []string{"", "a", "b"} {
-			for _, intents := range [][]vrdIntent{
-				nil,
-				{{"i1", 10, "a"}},
-				{{"i1", 10, "b"}},
-				{{"i1", 10, "a"}, {"i2", 20, "a"}},
-				{{"i1", 10, "a"}, {"i2", 20, "b"}},
-				{{"i2", 20, "b"}, {"i1", 10, "a"}},
-				{{"i1", 10, "a"}, {"i2", 20, "b"}, {"i3", 30, "a"}},
-				{{"i1", 10, "b"}, {"i2", 20, "a"}, {"i3", 30, "c"}},
-			} {
-				if running == "" && len(intents) == 0 {
-					continue
-				}
-				if keysFail && (running != "a" || len(intents) > 1) {
-					continue
-				}
-				n++
-				ctrl := gomock.NewController(t)
-				cc := mockcacheclient.NewMockClient(ctrl)
-				var runUpds, intUpds []*cache.Update
-				if running != "" {
-					runUpds = append(runUpds, cache.NewUpdate(path, vrdBytes(running), 0, "running", 0))
-				}
-				for i, in := range intents {
-					intUpds = append(intUpds, cache.NewUpdate(path, vrdBytes(in.val), in.prio, in.owner, int64(i)))
-				}
-				cc.EXPECT().ReadCh(gomock.Any(), gomock.Any(), gomock.Any(), gomock.Any(), gomock.Any()).AnyTimes().DoAndReturn(
-					func(_ context.Context, _ string, opts *cache.Opts, _ [][]string, _ time.Duration) chan *cache.Update {
-						ch := make(chan *cache.Update, 10)
-						if opts.Store == cachepb.Store_CONFIG {
-							for _, u := range runUpds {
-								ch <- u
+		for _, leaf := range leaves {
+			path, xpath := leaf.path, leaf.xpath
+			for _, running := range leaf.runnings {
+				for _, intents := range leaf.sets {
+					if running == "" && len(intents) == 0 {
+						continue
+					}
+					if keysFail && (running != "a" || len(intents) > 1) {
+						continue
+					}
+					_ = xpath
+					n++
+					ctrl := gomock.NewController(t)
+					cc := mockcacheclient.NewMockClient(ctrl)
+					var runUpds, intUpds []*cache.Update
+					if running != "" {
+						runUpds = append(runUpds, cache.NewUpdate(path, vrdBytes(running), 0, "running", 0))
+					}
+					for i, in := range intents {
+						intUpds = append(intUpds, cache.NewUpdate(path, vrdBytes(in.val), in.prio, in.owner, int64(i)))
+					}
+					cc.EXPECT().ReadCh(gomock.Any(), gomock.Any(), gomock.Any(), gomock.Any(), gomock.Any()).AnyTimes().DoAndReturn(
+						func(_ context.Context, _ string, opts *cache.Opts, _ [][]string, _ time.Duration) chan *cache.Update {
+							ch := make(chan *cache.Update, 10)
+							if opts.Store == cachepb.Store_CONFIG {
+								for _, u := range runUpds {
+									ch <- u
+								}
 							}
-						}
-						close(ch)
-						return ch
-					})
-				cc.EXPECT().Read(gomock.Any(), gomock.Any(), gomock.Any(), gomock.Any(), gomock.Any()).AnyTimes().DoAndReturn(
-					func(_ context.Context, _ string, opts *cache.Opts, paths [][]string, _ time.Duration) []*cache.Update {
-						if opts.Store == cachepb.Store_INTENDED && len(paths) == 1 && strings.Join(paths[0], "\x00") == strings.Join(path, "\x00") {
-							return append([]*cache.Update{}, intUpds...)
-						}
-						return nil
-					})
-				cc.EXPECT().GetKeys(gomock.Any(), gomock.Any(), gomock.Any()).AnyTimes().DoAndReturn(
-					func(_ context.Context, _ string, store cachepb.Store) (chan *cache.Update, error) {
-						if keysFail {
-							return nil, fmt.Errorf("cache unavailable")
-						}
-						ch := make(chan *cache.Update, 10)
-						if store == cachepb.Store_INTENDED {
-							for _, u := range intUpds {
-								ch <- u
+							close(ch)
+							return ch
+						})
+					cc.EXPECT().Read(gomock.Any(), gomock.Any(), gomock.Any(), gomock.Any(), gomock.Any()).AnyTimes().DoAndReturn(
+						func(_ context.Context, _ string, opts *cache.Opts, paths [][]string, _ time.Duration) []*cache.Update {
+							if opts.Store == cachepb.Store_INTENDED && len(paths) == 1 && strings.Join(paths[0], "\x00") == strings.Join(path, "\x00") {
+								return append([]*cache.Update{}, intUpds...)
 							}
-						}
-						close(ch)
-						return ch, nil
-					})
-				scl, schema, err := testhelper.InitSDCIOSchema()
-				if err != nil {
-					t.Fatal(err)
-				}
-				d := &Datastore{
-					config:       &config.DatastoreConfig{Name: "dev1", Schema: schema},
-					cacheClient:  cc,
-					schemaClient: schemaClient.NewSchemaClientBound(schema.GetSchema(), scl),
-					m:            &sync.RWMutex{},
-					md:           &sync.RWMutex{},
-				}
-				st := &vrdStream{}
-				in := fmt.Sprintf("path=%s,running=%q,intents=%v,intendedKeysReadFails=%v", xpath, running, intents, keysFail)
-				func() {
-					defer func() {
-						if r := recover(); r != nil {
-							fmt.Printf("REPLAY-FAIL fn=%s clause=panic input=%s panic=%v\n", fn, in, r)
-						}
+							return nil
+						})
+					cc.EXPECT().GetKeys(gomock.Any(), gomock.Any(), gomock.Any()).AnyTimes().DoAndReturn(
+						func(_ context.Context, _ string, store cachepb.Store) (chan *cache.Update, error) {
+							if keysFail {
+								return nil, fmt.Errorf("cache unavailable")
+							}
+							ch := make(chan *cache.Update, 10)
+							if store == cachepb.Store_INTENDED {
+								for _, u := range intUpds {
+									ch <- u
+								}
+							}
+							close(ch)
+							return ch, nil
+						})
+					scl, schema, err := testhelper.InitSDCIOSchema()
+					if err != nil {
+						t.Fatal(err)
+					}
+					d := &Datastore{
+						config:       &config.DatastoreConfig{Name: "dev1", Schema: schema},
+						cacheClient:  cc,
+						schemaClient: schemaClient.NewSchemaClientBound(schema.GetSchema(), scl),
+						m:            &sync.RWMutex{},
+						md:           &sync.RWMutex{},
+					}
+					st := &vrdStream{}
+					in := fmt.Sprintf("path=%s,running=%q,intents=%v,intendedKeysReadFails=%v", xpath, running, intents, keysFail)
+					func() {
+						defer func() {
+							if r := recover(); r != nil {
+								fmt.Printf("REPLAY-FAIL fn=%s clause=panic input=%s panic=%v\n", fn, in, r)
+							}
+						}()
+						d.runDeviationUpdate(context.Background(), map[string]sdcpb.DataServer_WatchDeviationsServer{"c1": st})
 					}()
-					d.runDeviationUpdate(context.Background(), map[string]sdcpb.DataServer_WatchDeviationsServer{"c1": st})
-				}()
-				// expected report
-				var want []string
-				sorted := append([]vrdIntent{}, intents...)
-				sort.SliceStable(sorted, func(i, j int) bool { return sorted[i].prio < sorted[j].prio })
-				switch {
-				case len(sorted) == 0:
-					want = append(want, fmt.Sprintf("UNHANDLED intent= current=%q expected=%q", running, ""))
-				default:
-					if sorted[0].val != running {
-						want = append(want, fmt.Sprintf("NOT_APPLIED intent=%s current=%q expected=%q", sorted[0].owner, running, sorted[0].val))
-					}
-					for _, o := range sorted[1:] {
-						if o.val != sorted[0].val {
-							want = append(want, fmt.Sprintf("OVERRULED intent=%s", o.owner))
+					// expected report
+					var want []string
+					sorted := append([]vrdIntent{}, intents...)
+					sort.SliceStable(sorted, func(i, j int) bool { return sorted[i].prio < sorted[j].prio })
+					switch {
+					case len(sorted) == 0:
+						want = append(want, fmt.Sprintf("UNHANDLED intent= current=%q expected=%q", vrdDatum(running), ""))
+					default:
+						if vrdDatum(sorted[0].val) != vrdDatum(running) {
+							want = append(want, fmt.Sprintf("NOT_APPLIED intent=%s current=%q expected=%q", sorted[0].owner, vrdDatum(running), vrdDatum(sorted[0].val)))
+						}
+						for _, o := range sorted[1:] {
+							if vrdDatum(o.val) != vrdDatum(sorted[0].val) {
+								want = append(want, fmt.Sprintf("OVERRULED intent=%s", o.owner))
+							}
 						}
 					}
-				}
-				var got []string
-				bracket := len(st.msgs) >= 2 && st.msgs[0].GetEvent() == sdcpb.DeviationEvent_START && st.msgs[len(st.msgs)-1].GetEvent() == sdcpb.DeviationEvent_END
-				if !bracket {
-					fmt.Printf("REPLAY-FAIL fn=%s clause=bracketed_by_start_and_end input=%s why=%d messages, first/last are not START/END\n", fn, in, len(st.msgs))
-				}
-				for _, m := range st.msgs {
-					if m.GetEvent() != sdcpb.DeviationEvent_UPDATE {
-						continue
+					var got []string
+					bracket := len(st.msgs) >= 2 && st.msgs[0].GetEvent() == sdcpb.DeviationEvent_START && st.msgs[len(st.msgs)-1].GetEvent() == sdcpb.DeviationEvent_END
+					if !bracket {
+						fmt.Printf("REPLAY-FAIL fn=%s clause=bracketed_by_start_and_end input=%s why=%d messages, first/last are not START/END\n", fn, in, len(st.msgs))
 					}
-					if utils.ToXPath(m.GetPath(), false) != xpath {
-						got = append(got, fmt.Sprintf("%s for path %q", m.GetReason(), utils.ToXPath(m.GetPath(), false)))
-						continue
+					for _, m := range st.msgs {
+						if m.GetEvent() != sdcpb.DeviationEvent_UPDATE {
+							continue
+						}
+						if utils.ToXPath(m.GetPath(), false) != xpath {
+							got = append(got, fmt.Sprintf("%s for path %q", m.GetReason(), utils.ToXPath(m.GetPath(), false)))
+							continue
+						}
+						switch m.GetReason() {
+						case sdcpb.DeviationReason_UNHANDLED:
+							got = append(got, fmt.Sprintf("UNHANDLED intent= current=%q expected=%q", vrdTvString(m.GetCurrentValue()), vrdTvString(m.GetExpectedValue())))
+						case sdcpb.DeviationReason_NOT_APPLIED:
+							got = append(got, fmt.Sprintf("NOT_APPLIED intent=%s current=%q expected=%q", m.GetIntent(), vrdTvString(m.GetCurrentValue()), vrdTvString(m.GetExpectedValue())))
+						case sdcpb.DeviationReason_OVERRULED:
+							got = append(got, fmt.Sprintf("OVERRULED intent=%s", m.GetIntent()))
+						default:
+							got = append(got, m.GetReason().String())
+						}
 					}
-					switch m.GetReason() {
-					case sdcpb.DeviationReason_UNHANDLED:
-						got = append(got, fmt.Sprintf("UNHANDLED intent= current=%q expected=%q", m.GetCurrentValue().GetStringVal(), m.GetExpectedValue().GetStringVal()))
-					case sdcpb.DeviationReason_NOT_APPLIED:
-						got = append(got, fmt.Sprintf("NOT_APPLIED intent=%s current=%q expected=%q", m.GetIntent(), m.GetCurrentValue().GetStringVal(), m.GetExpectedValue().GetStringVal()))
-					case sdcpb.DeviationReason_OVERRULED:
-						got = append(got, fmt.Sprintf("OVERRULED intent=%s", m.GetIntent()))
-					default:
-						got = append(got, m.GetReason().String())
+					sort.Strings(want)
+					sort.Strings(got)
+					if strings.Join(want, "; ") != strings.Join(got, "; ") {
+						clause := "reports_exactly_the_deviations"
+						if running == "" {
+							clause += ".known" // recorded finding: paths missing in running are reported once per intent, without values
+						}
+						fmt.Printf("REPLAY-FAIL fn=%s clause=%s input=%s why=reported [%s], the deviations are [%s]\n", fn, clause, in, strings.Join(got, "; "), strings.Join(want, "; "))
 					}
-				}
-				sort.Strings(want)
-				sort.Strings(got)
-				if strings.Join(want, "; ") != strings.Join(got, "; ") {
-					clause := "reports_exactly_the_deviations"
-					if running == "" {
-						clause += ".known" // recorded finding: paths missing in running are reported once per intent, without values
-					}
-					fmt.Printf("REPLAY-FAIL fn=%s clause=%s input=%s why=reported [%s], the deviations are [%s]\n", fn, clause, in, strings.Join(got, "; "), strings.Join(want, "; "))
 				}
 			}
 		}
